@@ -262,10 +262,16 @@ class Ctx(HeapSnap):
         """a compiled regular expression object (only literal patterns with a model in builtins_model)"""
         return self.eng.alloc("pattern", pattern=pattern)
 
-    def reclist(self, name, schema):
+    def reclist(self, name, schema, as_objects=False, methods=None):
+        """list of records with constant keys; with as_objects=True the records are OBJECTS whose attributes are the
+        columns and whose listed argument-less methods return the named column (a pure function of the object)"""
         from .reclist import new_reclist
 
-        return new_reclist(self.eng, name, schema)
+        r = new_reclist(self.eng, name, schema)
+        if as_objects:
+            self.eng.set_field(r, "as_objects", True)
+            self.eng.set_field(r, "methods", dict(methods or {}))
+        return r
 
     def instream(self, name="file", pos0=None):
         """input stream with arbitrary content and arbitrary position 0 <= pos <= len(data)"""
